@@ -94,11 +94,16 @@ func runThoroughExtras(prop, repo, verif string, r *Report) {
 			var m struct {
 				Property string `json:"property"`
 				Expect   string `json:"expect_rule"`
+				Status   string `json:"status"`
 			}
 			if json.Unmarshal(b, &m) != nil || m.Property != prop {
 				continue
 			}
-			jobs = append(jobs, job{name: e.Name(), source: "seeded", patch: filepath.Join(verif, "seeded", e.Name(), "patch.diff"), expect: m.Expect})
+			src := "seeded"
+			if m.Status == "out-of-reach" {
+				src = "seeded (recorded as out of static reach)"
+			}
+			jobs = append(jobs, job{name: e.Name(), source: src, patch: filepath.Join(verif, "seeded", e.Name(), "patch.diff"), expect: m.Expect})
 		}
 	}
 	sort.Slice(jobs, func(i, j int) bool { return jobs[i].name < jobs[j].name })
@@ -116,15 +121,60 @@ func runThoroughExtras(prop, repo, verif string, r *Report) {
 	}
 	wg.Wait()
 	det, missed := 0, 0
-	for _, m := range results {
+	for i, m := range results {
 		switch m.Status {
 		case "detected":
 			det++
 		case "missed":
+			if strings.Contains(m.Source, "out of static reach") {
+				results[i].Status = "not-detected (out of static reach, see seeded/README.md)"
+				continue
+			}
 			missed++
 			fmt.Printf("WARNING property=%s mutation %s (%s) is NOT detected by the rules (expected %s)\n", prop, m.Name, m.Source, m.Expect)
 		}
 	}
+	// ---- false-alarm self-test: behaviour-preserving refactorings must leave the check silent
+	var rjobs []string
+	if ents, err := os.ReadDir(filepath.Join(verif, "refactors")); err == nil {
+		for _, e := range ents {
+			if strings.HasSuffix(e.Name(), ".diff") {
+				rjobs = append(rjobs, e.Name())
+			}
+		}
+	}
+	sort.Strings(rjobs)
+	rres := make([]mutResult, len(rjobs))
+	for i, name := range rjobs {
+		wg.Add(1)
+		go func(i int, name string) {
+			defer wg.Done()
+			sem <- struct{}{}
+			defer func() { <-sem }()
+			m := runMutation(exe, prop, repo, verif, strings.TrimSuffix(name, ".diff"), "refactor", filepath.Join(verif, "refactors", name), "")
+			switch m.Status {
+			case "missed":
+				m.Status = "silent"
+			case "detected":
+				m.Status = "FALSE-ALARM"
+			}
+			rres[i] = m
+		}(i, name)
+	}
+	wg.Wait()
+	silent, alarms := 0, 0
+	for _, m := range rres {
+		switch m.Status {
+		case "silent":
+			silent++
+		case "FALSE-ALARM":
+			alarms++
+			fmt.Printf("WARNING property=%s raises an alarm on the behaviour-preserving refactoring %s: %s\n", prop, m.Name, m.Matched)
+		}
+	}
+	r.Extra["refactorings"] = rres
+	r.Extra["refactorings_silent"] = silent
+	r.Extra["refactorings_false_alarms"] = alarms
 	r.Extra["mutations"] = results
 	r.Extra["mutations_detected"] = det
 	r.Extra["mutations_missed"] = missed
